@@ -22,7 +22,7 @@ structure SS (σ ι o : Type*) (K : Type*) where
 namespace SS
 
 variable {K : Type*} [Field K]
-variable {σ σ₁ σ₂ ι ι₁ ι₂ o o₁ o₂ : Type*}
+variable {σ σ' σ₁ σ₂ ι ι₁ ι₂ o o₁ o₂ κ μ : Type*}
 
 /-- `__neg__`: `(A, B, -C, -D)`. -/
 def neg (G : SS σ ι o K) : SS σ ι o K := ⟨G.A, G.B, -G.C, -G.D⟩
@@ -86,6 +86,52 @@ def feedback [Fintype ι] [Fintype o] [DecidableEq ι] [DecidableEq o]
     B := fromRows (G₁.B * T2) (G₂.B * G₁.D * T2)
     C := fromCols (T1 * G₁.C) (sign • (G₁.D * EC2))
     D := G₁.D * T2 }
+
+/-- the matrix `F = [[I, -D22], [-Dbar11, I]]` of `lft` (rows/columns: the `ny` measured outputs
+`o₂`, then the `nu` control inputs `ι₂`). -/
+def lftF [DecidableEq o₂] [DecidableEq ι₂]
+    (G : SS σ (ι₁ ⊕ ι₂) (o₁ ⊕ o₂) K) (H : SS σ' (o₂ ⊕ κ) (ι₂ ⊕ μ) K) :
+    Matrix (o₂ ⊕ ι₂) (o₂ ⊕ ι₂) K :=
+  fromBlocks 1 (-G.D.toBlocks₂₂) (-H.D.toBlocks₁₁) 1
+
+/-- `self.lft(other, nu, ny)`: `self` has its `nu` control inputs `ι₂` LAST among the inputs and
+its `ny` measured outputs `o₂` LAST among the outputs; `other` has the `ny` measurements FIRST
+among its inputs and the `nu` controls FIRST among its outputs.  `Finv` is the inverse of
+`lftF G H`; `TH = F⁻¹ [[C2, 0, D21, 0], [0, Cbar1, 0, Dbar12]]` and the result blocks are built
+as the code builds `Ares`, `Bres`, `Cres`, `Dres`. -/
+def lft [Fintype o₂] [Fintype ι₂]
+    (G : SS σ (ι₁ ⊕ ι₂) (o₁ ⊕ o₂) K) (H : SS σ' (o₂ ⊕ κ) (ι₂ ⊕ μ) K)
+    (Finv : Matrix (o₂ ⊕ ι₂) (o₂ ⊕ ι₂) K) : SS (σ ⊕ σ') (ι₁ ⊕ κ) (o₁ ⊕ μ) K :=
+  let B1 := G.B.toCols₁
+  let B2 := G.B.toCols₂
+  let C1 := G.C.toRows₁
+  let C2 := G.C.toRows₂
+  let D11 := G.D.toBlocks₁₁
+  let D12 := G.D.toBlocks₁₂
+  let D21 := G.D.toBlocks₂₁
+  let Bb1 := H.B.toCols₁
+  let Bb2 := H.B.toCols₂
+  let Cb1 := H.C.toRows₁
+  let Cb2 := H.C.toRows₂
+  let Db12 := H.D.toBlocks₁₂
+  let Db21 := H.D.toBlocks₂₁
+  let Db22 := H.D.toBlocks₂₂
+  let TH : Matrix (o₂ ⊕ ι₂) ((σ ⊕ σ') ⊕ (ι₁ ⊕ κ)) K :=
+    Finv * fromCols (fromBlocks C2 0 0 Cb1) (fromBlocks D21 0 0 Db12)
+  let T := TH.toCols₁
+  let Hm := TH.toCols₂
+  let T11 := T.toBlocks₁₁
+  let T12 := T.toBlocks₁₂
+  let T21 := T.toBlocks₂₁
+  let T22 := T.toBlocks₂₂
+  let H11 := Hm.toBlocks₁₁
+  let H12 := Hm.toBlocks₁₂
+  let H21 := Hm.toBlocks₂₁
+  let H22 := Hm.toBlocks₂₂
+  { A := fromBlocks (G.A + B2 * T21) (B2 * T22) (Bb1 * T11) (H.A + Bb1 * T12)
+    B := fromBlocks (B1 + B2 * H21) (B2 * H22) (Bb1 * H11) (Bb2 + Bb1 * H12)
+    C := fromBlocks (C1 + D12 * T21) (D12 * T22) (Db21 * T11) (Cb2 + Db21 * T12)
+    D := fromBlocks (D11 + D12 * H21) (D12 * H22) (Db21 * H11) (Db22 + Db21 * H12) }
 
 /-- `sys[rows, cols]`. -/
 def select {o' ι' : Type*} (G : SS σ ι o K) (r : o' → o) (c : ι' → ι) : SS σ ι' o' K :=
